@@ -46,7 +46,10 @@ def gen_multi(rng):
 def gen_overlap(rng):
     """an %ignore pattern that can begin where a start terminal begins (and win there), hiding a real start inside its span"""
     return rng.choice(['start: "a" "c"\n%ignore /aba/\n', 'start: "#" WORD+\nWORD: /[a-z]+/\n%ignore /#![^ \\n]*/\n%ignore " "\n', 'start: A B\nA: "a"\nB: "b"\n%ignore /ab+a/\n%ignore " "\n',
-                       'start: "a" "b"+\n%ignore /ab?c/\n', 'start: X+ ";"\nX: "x"\n%ignore /x;x/\n%ignore " "\n'])
+                       'start: "a" "b"+\n%ignore /ab?c/\n', 'start: X+ ";"\nX: "x"\n%ignore /x;x/\n%ignore " "\n',
+                       # the ignored span can hold a whole match that does not begin at its first character, and the attempt after it consumes a token before failing
+                       'start: "a" "b"\n%ignore /a+x[ab]*;/\n', 'start: A B\nA: "a"\nB: "b"\n%ignore /a;[ab]*;/\n%ignore " "\n', 'start: "a" "b" "c"?\n%ignore /a+x[abc]*;/\n',
+                       'start: X "=" Y\nX: /[a-c]+/\nY: /[x-y]+/\n%ignore /c;[^ ]*/\n%ignore " "\n'])
 
 
 def brute(p, data, lo, hi, blank, start='start'):
@@ -88,7 +91,7 @@ def _case(args):
     recs = []
     for _ in range(4):
         if safe == 'overlap':
-            text = ''.join(rng.choice(['a', 'b', 'c', 'aba', 'ab', 'abc', '#', '#!', 'x', 'y', ';', 'x;x', ' ']) for _ in range(rng.randint(0, 9)))
+            text = ''.join(rng.choice(['a', 'b', 'c', 'aba', 'ab', 'abc', '#', '#!', 'x', 'y', ';', 'x;x', ' ', 'ax', 'axab;', 'a;ab;', 'c;a=x', '=', 'ab;']) for _ in range(rng.randint(0, 9)))
         elif safe:
             text = ''.join(rng.choice('abcd  x') for _ in range(rng.randint(0, 10)))
         else:
